@@ -70,7 +70,7 @@ func (r *Row) Add(c Cell) *Row {
 	if r.inTable != nil {
 		r.inTable.resizeColumnsAtLeast(column)
 	}
-	invokePropertyCallbacks(r.rowCellCallbacks, CB_AT_ADD, ptr, r.ErrorContainer)
+	invokePropertyCallbacks(r.rowCellCallbacks, CB_AT_ADD, ptr, r)
 	return r
 }
 
